@@ -5,7 +5,8 @@
    units / cost; grouped or not; grouped ones with or without HAVING NOT empty(sum(inv))). *)
 EXTENDS SumStore
 
-CONSTANTS MaxRows, HistLen, Rich, RichCells
+CONSTANTS MaxRows, HistLen, Rich, RichCells,
+          Limits      \* the LIMIT clauses of the last statement of a history (0: none)
 
 D1 == 737434   \* 2020-01-10
 D2 == 737444
@@ -31,7 +32,8 @@ NodeLists(rich) ==
     \cup (IF rich THEN { <<S, Node("sumf", FC), Node("fsum", FC)>>, <<Node("sumf", FV), S, Node("fsum", FV)>>,
                          <<Node("fsum", FU), Node("fsum", FC)>> } ELSE {})
 (* BQL has HAVING after GROUP BY only *)
-Stmts(rich) == { s \in { Stmt(nl, gr, hv) : nl \in NodeLists(rich), gr \in BOOLEAN, hv \in BOOLEAN } : s.having => s.grouped }
+Stmts(rich) == { s \in { StmtL(nl, gr, hv, lm) : nl \in NodeLists(rich), gr \in BOOLEAN, hv \in BOOLEAN, lm \in Limits } :
+                     s.having => s.grouped }
 
 (* sets behind an operator with a parameter: not evaluated at the startup of the other configurations *)
 (* histories: what has been executed before (one of a few shapes: one node, two nodes over the same operand grouped,
@@ -45,6 +47,10 @@ InitSmall == InitWith(SeqsUpTo(2, Cells(FALSE, FALSE)), [1..2 -> {Stmt(<<S>>, FA
 
 (* ... and with one aggregate node only: the damage shows when a statement is executed the second time *)
 InitHist == InitWith(SeqsUpTo(2, Cells(FALSE, FALSE)), [1..2 -> {Stmt(<<S>>, FALSE, FALSE), Stmt(<<S>>, TRUE, FALSE)}])
+
+(* ... and for the run on the StopAtLimit mechanism: one grouped statement with LIMIT 1, tables of up to 3 rows (the
+   damage needs a row of the first group after the first row of the second one) *)
+InitLimit == InitWith(SeqsUpTo(3, Cells(FALSE, FALSE)), { <<StmtL(<<S>>, TRUE, FALSE, 1)>> })
 
 (* the laws of InvSum on the tables of this instance, once per table (in its initial state) *)
 LawsInv ==
